@@ -400,7 +400,10 @@ def rule_HD(run: Run) -> RuleResult:
 
 # ------------------------------------------------------------------ R-MF
 def _member_filters(fn: ast.AST, selfname: str):
-    """(source, predicate) pairs of loops over dir(...) in fn, normalised."""
+    """(source, formula) of every loop over dir(...) in fn; the formula is the
+    boolean expression (AST over normalised atoms MEMBER / NAME) under which a
+    member is processed, whatever the loop's shape (comprehension filter, `if
+    cond: work`, guard clause `if not cond: continue`)."""
     out = []
     for x in ast.walk(fn):
         gens = []
@@ -413,25 +416,60 @@ def _member_filters(fn: ast.AST, selfname: str):
                 continue
             var = tgt.id if isinstance(tgt, ast.Name) else "?"
             src = ast.unparse(it.args[0]) if it.args else "?"
-            conds = []
+            parts: List[ast.expr] = []
             if ifs is not None:
-                conds = list(ifs)
+                parts = list(ifs)
             else:
-                for s in ast.walk(node):
-                    if isinstance(s, ast.If):
-                        conds.append(s.test)
-            amap = astu.single_assign_map(node) if isinstance(node, ast.For) else {}
-            texts = []
-            for c in conds:
-                c2 = astu.expand_locals(c, amap)
-                t = ast.unparse(c2)
-                for a in (f"getattr({src}, {var}, None)", f"getattr({src}, {var})", f"getattr({selfname}, {var}, None)", f"getattr({selfname}, {var})"):
-                    t = t.replace(a, "MEMBER")
-                t = t.replace(var, "NAME")
-                parts = sorted(p_.strip().strip("()") for p_ in t.split(" and "))
-                texts.append(" and ".join(parts))
-            out.append((src, sorted(texts)))
+                amap = astu.single_assign_map(node)
+                for st in node.body:
+                    if isinstance(st, ast.If) and not st.orelse and all(isinstance(b, ast.Continue) for b in st.body):
+                        parts.append(ast.UnaryOp(op=ast.Not(), operand=astu.expand_locals(st.test, amap)))
+                    elif isinstance(st, ast.If) and not st.orelse:
+                        parts.append(astu.expand_locals(st.test, amap))
+                        break
+                    elif isinstance(st, (ast.Assign, ast.AnnAssign)):
+                        continue
+                    else:
+                        break
+            formula = ast.BoolOp(op=ast.And(), values=parts) if len(parts) > 1 else (parts[0] if parts else ast.Constant(value=True))
+            t = ast.unparse(ast.fix_missing_locations(formula))
+            for a in (f"getattr({src}, {var}, None)", f"getattr({src}, {var})", f"getattr({selfname}, {var}, None)", f"getattr({selfname}, {var})"):
+                t = t.replace(a, "MEMBER")
+            import re as _re
+            t = _re.sub(r"(?<![A-Za-z0-9_])" + _re.escape(var) + r"(?![A-Za-z0-9_])", "NAME", t)
+            out.append((src, ast.parse(t, mode="eval").body))
     return out
+
+
+def _truth_table(formula: ast.expr, atoms: List[str]):
+    import itertools as _it
+    rows = []
+
+    def ev(e, env):
+        if isinstance(e, ast.UnaryOp) and isinstance(e.op, ast.Not):
+            return not ev(e.operand, env)
+        if isinstance(e, ast.BoolOp):
+            vals = [ev(v, env) for v in e.values]
+            return all(vals) if isinstance(e.op, ast.And) else any(vals)
+        if isinstance(e, ast.Constant):
+            return bool(e.value)
+        return env[ast.unparse(e)]
+
+    for combo in _it.product([False, True], repeat=len(atoms)):
+        rows.append(ev(formula, dict(zip(atoms, combo))))
+    return tuple(rows)
+
+
+def _formula_atoms(e: ast.expr, out: List[str]):
+    if isinstance(e, ast.UnaryOp) and isinstance(e.op, ast.Not):
+        _formula_atoms(e.operand, out)
+    elif isinstance(e, ast.BoolOp):
+        for v in e.values:
+            _formula_atoms(v, out)
+    elif not isinstance(e, ast.Constant):
+        t = ast.unparse(e)
+        if t not in out:
+            out.append(t)
 
 
 def rule_MF(run: Run) -> RuleResult:
@@ -452,17 +490,25 @@ def rule_MF(run: Run) -> RuleResult:
     if init is None:
         raise AnalysisError("_DatasetClassMixin.__init__ not found")
     forms["_DatasetClassMixin.__init__"] = (_member_filters(init, "self"), init.lineno, "self")
+    atoms: List[str] = []
+    for k, (flt, ln, sn) in forms.items():
+        for src, formula in flt:
+            _formula_atoms(formula, atoms)
     ref = None
     for k, (flt, ln, sn) in forms.items():
         if len(flt) != 1:
             res.add(f"labrea.datasetclass.{k}:one member enumeration over dir(...)", False, f, ln, f"{len(flt)} enumerations", nec)
             continue
-        src, preds = flt[0]
+        src, formula = flt[0]
         src_n = "CLASS" if src in (sn, f"{sn}.__class__", "self.__class__", "cls") else src
-        key = (src_n, tuple(preds))
+        key = (src_n, _truth_table(formula, atoms))
         if ref is None:
             ref = key
-        res.add(f"labrea.datasetclass.{k}:same member source and predicate as its siblings", key == ref, f, ln, f"source {src} predicate {preds}", nec)
+        res.add(f"labrea.datasetclass.{k}:same member source and predicate as its siblings", key == ref, f, ln,
+                f"source {src}; member processed iff {ast.unparse(formula)} (compared as a truth table over {atoms})", nec)
+    want_atoms = {"isinstance(MEMBER, Evaluatable)", "NAME.startswith('__')"}
+    res.add("labrea.datasetclass:members are the Evaluatable attributes that are not dunder names", set(atoms) == want_atoms, f, 1,
+            f"predicate atoms {sorted(atoms)}", nec)
     eq = mix.methods.get("__eq__")
     rp = mix.methods.get("__repr__")
     ok = eq is not None and rp is not None and "self._repr_options == other._repr_options" in ast.unparse(eq) and "isinstance(other, self.__class__)" in ast.unparse(eq) and "self._repr_options" in ast.unparse(rp)
